@@ -76,10 +76,15 @@ func implEvalInner(text string, localOff int, hostSpec, dataWire string) (string
 	parsedMu.Unlock()
 	if !seen {
 		var err error
-		src, err = formula.ParseSourceCode([]byte(text))
-		if err != nil {
-			return "parse-error", nil
+		ar := newArena([]byte(text))
+		src, err = formula.ParseSourceCode(ar.text)
+		if msg := ar.check(); msg != "" {
+			fails = append(fails, msg)
 		}
+		if err != nil {
+			return "parse-error", fails
+		}
+		ar.scribble() // the caller reuses its buffer: the tree must not change with it
 		parsedMu.Lock()
 		if len(parsedTrees) < 200000 {
 			parsedTrees[text] = src
